@@ -8,7 +8,8 @@ Small-step interleaving model of THE CODE AS IT IS.  Shared state: the bounded c
 (FIFO buffer, capacity 4·maxBatch), the `done` flag, the failure queue (bounded), the
 `shuttingDown` flag.  Threads: any number of submitters (each call of `submit` is three atomic
 steps: the `done` pre-check, the non-blocking try-send, the blocking three-way select), the single
-writer goroutine (`run`: select → drainReady one receive at a time → flush), the closer
+writer goroutine (`run`: select → drainReady one receive at a time → flush; after `done` it keeps
+draining and flushing until the channel is empty), the closer
 (`close(done)`), the failure-queue drain goroutine.  A schedule is an arbitrary `List Act`;
 an action that is not enabled leaves the state unchanged (the goroutine stays blocked).
 Go's `select` with several ready cases picks one at random: the pick is part of the action.
@@ -160,6 +161,10 @@ def flushBatch (c : Cfg) (s : St) (ok : Bool) : St :=
 
 def afterFlush (closing : Bool) : WPc := if closing then .exited else .select
 
+/-- after a non-empty flush: the closing loop `for { drainReady(); if len(batch) == 0 { return }; flush() }`
+    goes back to drainReady (fix 305110c); the normal loop goes back to the select -/
+def afterBatch (closing : Bool) : WPc := if closing then .drain true else .select
+
 def wStep (c : Cfg) (s : St) (pick : Nat) (ok : Bool) : St :=
   match s.wpc with
   | .exited => s
@@ -179,8 +184,8 @@ def wStep (c : Cfg) (s : St) (pick : Nat) (ok : Bool) : St :=
     else { s with wpc := .flush closing }
   | .flush closing =>
     match s.batch with
-    | [] => { s with wpc := afterFlush closing }
-    | _ :: _ => { flushBatch c s ok with wpc := afterFlush closing }
+    | [] => { s with wpc := afterFlush closing }          -- closing: `if len(batch) == 0 { return }`
+    | _ :: _ => { flushBatch c s ok with wpc := afterBatch closing }
 
 def fdrainStep (s : St) : St :=
   match s.fq with
